@@ -44,7 +44,12 @@ func (w *walState) feed(ctx string) {
 	}
 	for w.parsed < len(w.log) {
 		var rec recovery.LogRecord
-		if !c08Parser.DeserializeLogRecord(w.log[w.parsed:], &rec) {
+		ok := false
+		if f := guard(func() { ok = c08Parser.DeserializeLogRecord(w.log[w.parsed:], &rec) }); f != nil {
+			w.violations = append(w.violations, crashFinding{"C08", "log-not-parsable", fmt.Sprintf("%s: the repository's record parser panics on the log at offset %d: %s", ctx, w.parsed, f.String())})
+			return
+		}
+		if !ok {
 			w.violations = append(w.violations, crashFinding{"C08", "log-not-parsable", fmt.Sprintf("%s: after this log write the log file does not end at a record boundary (%d trailing bytes at offset %d)", ctx, len(w.log)-w.parsed, w.parsed)})
 			return
 		}
